@@ -599,6 +599,9 @@ type Result struct {
 // K returns the three-valued membership of the subject in object#relation.
 func (r *Result) K(object, relation string) Tri {
 	k := object + "#" + relation
+	if r.Subject == k {
+		return T // a userset contains itself, whether or not the object occurs in the data
+	}
 	switch {
 	case r.cert[k]:
 		return T
